@@ -2320,7 +2320,7 @@ CJSON_PUBLIC(cJSON_bool) cJSON_InsertItemInArray(cJSON *array, int which, cJSON 
 {
     cJSON *after_inserted = NULL;
 
-    if (which < 0 || newitem == NULL)
+    if (which < 0 || newitem == NULL || array == newitem)
     {
         return false;
     }
